@@ -304,7 +304,7 @@ package objects
 
 // capacity change (RM forced): the ledger identity is re-established; returns the delta
 //@ func (sn *Node) SetCapacity(newCapacity *resources.Resource) (delta *resources.Resource)
-//@   props C01 C02
+//@   props C01 C02 C19
 //@   holds inv(sn)
 //@   requires okR(newCapacity) && sepN(sn, newCapacity) && mag(newCapacity)
 //@   assigns sn.totalResource, sn.availableResource, newCapacity.Resources[*]
@@ -313,6 +313,15 @@ package objects
 //@   ensures[delta] delta != nil ==> (forall t Key :: rv(delta, t) == old(rv(newCapacity, t)) - old(rv(sn.totalResource, t)))
 //@   ensures[nodelta] delta == nil ==> (forall t Key :: old(rv(newCapacity, t)) == old(rv(sn.totalResource, t)))
 //@   ensures[frame] forall t Key :: rv(sn.allocatedResource, t) == old(rv(sn.allocatedResource, t)) && rv(sn.occupiedResource, t) == old(rv(sn.occupiedResource, t))
+
+// every capacity change (a delta is returned: growth, shrink or a mix) re-sorts the node in the collections that list
+// it - the deferred notification runs whenever the delta is set, whatever its sign
+//@ func (sn *Node) SetCapacity$calls(objects.Node.notifyListeners)()
+//@   props C19
+//@   sweep
+//@   mode nopanic=off
+//@   at[self] call objects.Node.notifyListeners#1: assert arg0 == sn
+//@   ensures[notified] delta != nil ==> ncalls(objects.Node.notifyListeners) == 1
 
 //@ func (sn *Node) SetOccupiedResource(occupiedResource *resources.Resource)
 //@   props C01 C19
@@ -783,10 +792,10 @@ package objects
 // a resize of an ask/allocation moves exactly one ledger by the difference: pending for an outstanding ask, the total
 // the allocation is booked into (placeholder or real) for a bound one, and the queue chain / user by the same delta
 //@ func (sa *Application) UpdateAllocationResources(alloc *Allocation, isQuotaPreemptionEnabled bool) (err error)
-//@   props C03 C05 C06 C01 C10
+//@   props C03 C05 C06 C01 C10 C13
 //@   mode nopanic=off
-//@   ensures[boundreal:C03,C06,C10] err == nil && old(sa.requests[alloc.allocationKey]) != nil && old(sa.requests[alloc.allocationKey].allocated) && !old(sa.requests[alloc.allocationKey].placeholder) ==> (forall t Key :: rv(sa.allocatedResource, t) == clamp64(old(rv(sa.allocatedResource, t)) + clamp64(rv(alloc.allocatedResource, t) - old(rv(sa.requests[alloc.allocationKey].allocatedResource, t)))))
-//@   ensures[boundph:C03,C06,C10] err == nil && old(sa.requests[alloc.allocationKey]) != nil && old(sa.requests[alloc.allocationKey].allocated) && old(sa.requests[alloc.allocationKey].placeholder) ==> (forall t Key :: rv(sa.allocatedPlaceholder, t) == clamp64(old(rv(sa.allocatedPlaceholder, t)) + clamp64(rv(alloc.allocatedResource, t) - old(rv(sa.requests[alloc.allocationKey].allocatedResource, t))))) && (forall t Key :: rv(sa.allocatedResource, t) == old(rv(sa.allocatedResource, t)))
+//@   ensures[boundreal:C03,C06,C10,C13] err == nil && old(sa.requests[alloc.allocationKey]) != nil && old(sa.requests[alloc.allocationKey].allocated) && !old(sa.requests[alloc.allocationKey].placeholder) ==> (forall t Key :: rv(sa.allocatedResource, t) == clamp64(old(rv(sa.allocatedResource, t)) + clamp64(rv(alloc.allocatedResource, t) - old(rv(sa.requests[alloc.allocationKey].allocatedResource, t)))))
+//@   ensures[boundph:C03,C06,C10,C13] err == nil && old(sa.requests[alloc.allocationKey]) != nil && old(sa.requests[alloc.allocationKey].allocated) && old(sa.requests[alloc.allocationKey].placeholder) ==> (forall t Key :: rv(sa.allocatedPlaceholder, t) == clamp64(old(rv(sa.allocatedPlaceholder, t)) + clamp64(rv(alloc.allocatedResource, t) - old(rv(sa.requests[alloc.allocationKey].allocatedResource, t))))) && (forall t Key :: rv(sa.allocatedResource, t) == old(rv(sa.allocatedResource, t)))
 //@   ensures[outstanding:C03] err == nil && old(sa.requests[alloc.allocationKey]) != nil && !old(sa.requests[alloc.allocationKey].allocated) ==> (forall t Key :: rv(sa.pending, t) == clamp64(old(rv(sa.pending, t)) + clamp64(rv(alloc.allocatedResource, t) - old(rv(sa.requests[alloc.allocationKey].allocatedResource, t)))))
 //@   ensures[stored:C01,C03] err == nil && alloc != nil && old(sa.requests[alloc.allocationKey]) != nil ==> (forall t Key :: rv(old(sa.requests[alloc.allocationKey]).allocatedResource, t) == old(rv(alloc.allocatedResource, t)))
 //@   at[storedonexisting:C01,C03] call objects.Allocation.SetAllocatedResource#1: assert arg0 == existing && arg1 == newResource
